@@ -34,6 +34,12 @@ CLAIMED = {
          "value), every 2-chunk split of the reference encoding (thorough: every chunking of short encodings, octet-wise feeding); the "
          "driver re-presents unconsumed octets as the manual prescribes and every decoder call is one trace event validated by TLC.",
          "TLA+ restartable-decoder contract + TLC-enumerated chunk schedules + per-call trace validation"),
+ "C06": ("model_checking", "7 C06",
+         "in Codec.tla a representation change (BuildRep) leaves the abstract value unchanged, and the encoders are functions of the abstract "
+         "value; TLC enumerates, per (type, value), every applicable representation (SET OF order, INTEGER padding, explicit DEFAULT, unused-bit "
+         "noise, non-canonical TRUE, decode from a non-canonical BER variant) x canonical syntax; the trace is accepted only if the structure "
+         "compares equal and the encoder output equals that of the canonical structure (DER/UPER/OER: the reference octets).",
+         "TLA+ abstract-value encoders + TLC-enumerated representation changes + trace validation"),
 }
 
 checks = []
